@@ -10,7 +10,7 @@ RELAX = ['group_rate', 'period_rate', 'cap', 'rate', 'level_hi', 'level_lo', 'en
 def run(tier, seed):
     chk = CheckRun('C13', tier, seed)
     th = tier == 'thorough'
-    for tag, cfgs in [('coarse', fam.fam_coarse(thorough=True)), ('periodic', fam.fam_periodic(thorough=True))]:
+    for tag, cfgs in [('coarse', fam.fam_coarse(thorough=True)), ('coarse_dst', fam.fam_coarse_dst()), ('periodic', fam.fam_periodic(thorough=True))]:
         def make_real(cfg):
             return R.Real(cfg)
 
@@ -22,6 +22,6 @@ def run(tier, seed):
         pos = common.spec_to_code(chk, cfgs, make_real, relax=RELAX, neg_cfgs=cfgs if th else cfgs[seed % 2::2], tag=tag, sel_hook=onsel)
         common.code_to_spec(chk, cfgs, make_real, tag=tag, chk_fields=('level', 'chdis'), sel_hook=onsel)
     chk.assumptions += ['limits constant inside a coarse interval / across merged periodic steps (the documentation does not settle time-varying limits there)',
-                        'coarse windows start on a coarse-interval boundary inside the horizon; wacc = 0 for coarse assets', 'equal step lengths inside a coarse interval']
+                        'coarse windows start on a coarse-interval boundary inside the horizon; wacc = 0 for coarse assets']
     return chk.finish(rule='every asset kind accepting freq / periodicity (contract with one and two variables, transport, storage with one and two variables, '
-                           'multi-commodity) x {coarse 2h on hourly grid (two windows), periodicity 2h, periodicity 2h with duration 4h}', exhaustive=True)
+                           'multi-commodity) x {coarse 2h on hourly grid (windows), coarse 2d on daily CET grids across the daylight-saving switches (steps of 23 / 24 / 25 h), periodicity 2h, periodicity 2h with duration 4h}', exhaustive=True)
